@@ -17,6 +17,9 @@ CHECKS = {
  "C05": dict(cat="exploration", tech="deterministic simulation with a Byzantine prover (assignment faults with honest continuation, local repair) over the emulated-field and BigUint operation registry; modular big-integer reference with a harness-side limb decoder", ref="DESIGN.md 3.2, 4/C05",
    text="Emulated-field operations over secp256k1 Fp/Fq and BLS12-381 Fp (incl. chains that leave elements un-normalised) and BigUint operations of widths 1..2048 bits run on boundary-class operands; the honest run must be satisfiable with the reference result iff the operands are admissible, and no Byzantine execution may be accepted unless the published values, decoded from marker-delimited limb groups, satisfy the operation modulo m with reduced, limb-bounded representations.",
    note="One known finding (non-canonical public-input exposure of emulated elements, see known_findings.json); Curve25519 parameter sets are not reachable through ZkStdLib and are not covered; MockProver is the constraint model."),
+ "C06": dict(cat="exploration", tech="deterministic simulation with a Byzantine prover over the elliptic-curve operation registry; affine group law over big integers as reference, harness-side point decoder", ref="DESIGN.md 3.2, 4/C06",
+   text="Jubjub (native) assignment, add, double, negate, msm (1..4 terms, bounded and unbounded scalars), multiplication by a constant, point from coordinates, equality / identity tests, select and assertions, and secp256k1 / BLS12-381 G1 (foreign) assignment, add, double, negate, point from coordinates, equality, select and multiplication by a constant run on identity, P=Q, P=-Q, low-order and off-curve operands and boundary scalars; honest runs must be satisfiable with the group-law result iff the operands are admissible, and no Byzantine execution may be accepted unless the published points decode to curve (subgroup) points satisfying the group law.",
+   note="Foreign-curve variable-base msm, hash-to-curve and (de)compression are not covered at this commit; MockProver is the constraint model; sampling of fault sites."),
  "C09": dict(cat="exploration", tech="deterministic simulation: invariant monitor on a structure-recording Assignment back end (unknown vs concrete vs Byzantine witnesses), sampled real keygen/prove/verify", ref="DESIGN.md 4/C09",
    text="Each operation circuit of the registry is synthesised with unknown witnesses, with the concrete boundary-class witness and under Byzantine value edits; fixed cells, selectors, the copy-constraint partition, table fills, advice positions and region count must coincide, and for a sample the verifying key made without a witness must verify a real proof made from the witness.",
    note="Covers the operation circuits present in the registry (native family at this commit, extended as the registry grows); the proof pipeline circuits of C01 have witness-independent structure by construction of the generator."),
